@@ -27,7 +27,7 @@ BL_EPS = {"blacklist", "refundUsers", "unblacklist"}
 PROPS = {
     "C01": dict(
         title="Ticket-payment solvency",
-        lean=["LP.Props.C01", "LP.Props.C01reach", "LP.Props.C01reachV2", "LP.Props.C01reachV1", "LP.Props.C01reachG1", "LP.Props.C14reach", "LP.Props.C14reachG", "LP.Props.AllVariants", "LP.Props.C09nothing", "LP.Props.C01receipts", "LP.Props.C01owner", "LP.Props.C01zero"],
+        lean=["LP.Props.C01", "LP.Props.C01reach", "LP.Props.C01reachV2", "LP.Props.C01reachV1", "LP.Props.C01reachG1", "LP.Props.C14reach", "LP.Props.C14reachG", "LP.Props.AllVariants", "LP.Props.C09nothing", "LP.Props.C01receipts", "LP.Props.C01owner", "LP.Props.C01zero", "LP.Props.C14zero"],
         profiles=[("life", ALL_VARIANTS), ("chunks", ALL_VARIANTS)],
         R={"xf.pay": {"claim", "claimPayment", "blacklist", "refundUsers"},
            "st": ({"claim", "claimPayment"}, FUNDS_MSGS)},
@@ -43,7 +43,7 @@ PROPS = {
     ),
     "C03": dict(
         title="Exactly min(T, confirmed) distinct winners",
-        lean=["LP.Props.C03base", "LP.Props.C03final", "LP.Props.C01reach", "LP.Props.C01reachV2", "LP.Props.C01reachV1", "LP.Props.C01reachG1", "LP.Props.C14reach", "LP.Props.C14reachG", "LP.Props.AllVariants2", "LP.Props.C03proceeds", "LP.Props.C01zero"],
+        lean=["LP.Props.C03base", "LP.Props.C03final", "LP.Props.C01reach", "LP.Props.C01reachV2", "LP.Props.C01reachV1", "LP.Props.C01reachG1", "LP.Props.C14reach", "LP.Props.C14reachG", "LP.Props.AllVariants2", "LP.Props.C03proceeds", "LP.Props.C01zero", "LP.Props.C14zero"],
         profiles=[("life", ALL_VARIANTS), ("fy", ["base", "guarV2"]), ("chunks", GUAR), ("topup", GUAR), ("reserve", GUAR)],
         R={"ret": {"select", "distribute"}},
         D={"nrw": SELECT_EPS | {"claim"}, "status": SELECT_EPS, "cpay": SELECT_EPS, "last": SELECT_EPS, "addr.win": SELECT_EPS,
@@ -127,7 +127,7 @@ PROPS = {
     ),
     "C14": dict(
         title="NFT draw and fees",
-        lean=["LP.Props.C14", "LP.Props.C14reach", "LP.Props.C14reachG", "LP.Props.C14feeLp"],
+        lean=["LP.Props.C14", "LP.Props.C14reach", "LP.Props.C14reachG", "LP.Props.C14feeLp", "LP.Props.C14zero"],
         profiles=[("life", ["nft", "nftGuar"]), ("chunks", ["nft", "nftGuar"]), ("deploy", ["nft", "nftGuar"])],
         R={"st": ({"deploy", "confirmNft", "selectNft", "secondary", "setNftCost"}, None), "sft": ANY,
            "xf.fee": {"claim", "claimPayment", "blacklist"}, "ret": {"selectNft", "secondary"}},
